@@ -159,7 +159,8 @@ def fixture_info(job):
             for ce in ue.conditional_effects:
                 bound += _bound_names(ce.antecedents.root)
         out["actions"][name] = {"params": [[p, t.name] for p, t in a.signature.items()], "bound": sorted(set(bound)),
-                                "n_when": len(a.conditional_effects), "n_forall": len(a.universal_effects)}
+                                "n_when": len(a.conditional_effects), "n_forall": len(a.universal_effects),
+                                "text_len": len(action_text(a))}
     if job.get("problem"):
         problem = ProblemParser(Path(job["problem"]), domain).parse_problem()
         out["objects"] = [[n, o.type.name] for n, o in problem.objects.items()]
